@@ -29,7 +29,10 @@ FROM_PRIVATE = "ext:cryptography.hazmat.primitives.asymmetric.ed25519.Ed25519Pri
 def run(ctx):
     eng = ctx.eng
     ctx.assume("A1", "A2", "A8")
-    sm = eng.walk("signing.sign_all_in_repodata")
+    # private helpers of the signing module are inlined, so that extracting the loops into a
+    # helper does not hide them
+    inline = frozenset(q for q, f in eng.prog.funcs.items() if f.mod.short == "signing" and q.split(".")[-1].startswith("_"))
+    sm = eng.summary(eng.prog.func("signing.sign_all_in_repodata"), None, inline)
     site = fn_site(eng, sm)
     fname, keyhex = P(sm.params[0]), P(sm.params[1])
     L = eng.expand(eng.repo_call("common.load_metadata_from_file", fname))
@@ -48,6 +51,17 @@ def run(ctx):
     ctx.ob("R1", "gate-packages", site.loc(), "'packages' in the loaded document %s" % ("is established on every completing path" if g_pk else "is not established"), g_pk)
     miss = [p for p in sm.paths if p.kind == "raise" and p.value.origin == "explicit" and len(p.value.chain) == 1 and ("nothas", L, C("packages")) in p.facts]
     ctx.ob("R1", "no-packages-error", site.loc(), "a document without 'packages' is rejected with %s" % (miss[0].value.exc if miss else "nothing explicit"), bool(miss) and eng.prog.exc_is_sub(miss[0].value.exc, "ValueError"))
+
+    # a document that is rebuilt ({**L, "signatures": <computed mapping>}) instead of updated in
+    # place is a different program shape: the per-section store rules below do not apply to it
+    from sa import AnalysisError
+    from .c08 import _rebuilt_from
+
+    for p in rets:
+        evs0 = [ev for ev, _d in flatten_events(p.events)]
+        wr = [ev for ev in evs0 if ev[0] == "call" and ev[2] == "repo:common.write_metadata_to_file" and ev[5][0] == "ok"]
+        if wr and all(_rebuilt_from(eng.expand(ev[3][0]), L) for ev in wr) and not any(ev[0] == "store" and root_of(ev[2]) == L for ev in all_events(p.events)):
+            raise AnalysisError("C11: sign_all_in_repodata builds a new document {**loaded, 'signatures': ...} instead of updating the loaded one in place; this functional shape is not modelled (no verdict)")
 
     # ---- R2 / R3 per path
     sigs = SubC(L, "signatures")
